@@ -62,6 +62,13 @@ type vc13Script struct {
 	// "typeerr".
 	Flavor string `json:"fl,omitempty"`
 
+	// Code and Body are, for the status kind, the status (one of
+	// vc13StatusCodes) and the form of the body: "junk", "valid" (a complete
+	// other version, for the index: the index of the round's entries) or
+	// "empty".
+	Code int    `json:"code,omitempty"`
+	Body string `json:"body,omitempty"`
+
 	// Form is, for the ok kinds, how the complete body is delimited: ""
 	// (Content-Length), "chunked" or "close".
 	Form string `json:"form,omitempty"`
@@ -676,6 +683,22 @@ func (w *vc13World) plan(n int, rd *vc13Round) (resps map[string]*vc13Resp, info
 			}
 		case vc13S404, vc13S500:
 			r.body = fresh(sc.Fill, 0)
+		case vc13Status:
+			r.code = sc.Code
+			if r.code == 0 {
+				r.code = 203
+			}
+
+			switch sc.Body {
+			case "valid":
+				r.body = fresh(sc.Fill, 0)
+			case "junk", "":
+				r.body = []byte(fmt.Sprintf("<html><body>%d: the list is being regenerated, try later</body></html>\n", sc.Code))
+			case "empty":
+				// No body.
+			default:
+				panic("vc13: bad status body " + sc.Body)
+			}
 		case vc13HangBody, vc13ShortCL, vc13ChunkTrunc:
 			r.body = fresh(sc.Fill, 0)
 			r.cut = vc13Cut(len(r.body), sc.CutPct)
@@ -916,7 +939,35 @@ func (w *vc13World) checkRound(
 		cls("ctx:tight")
 	}
 
+	// statusClasses counts the non-200 answers that reached the code.
+	statusClasses := func(name string, sc vc13Script, ui *vc13URLInfo) {
+		if ui.kind != vc13Status {
+			return
+		}
+
+		if sc.Code == 0 {
+			sc.Code = 203
+		}
+
+		if sc.Body == "" {
+			sc.Body = "junk"
+		}
+
+		cls(fmt.Sprintf("status:%s:%d:%s", name, sc.Code, sc.Body))
+		switch {
+		case sc.Code < 300 && sc.Body == "valid":
+			cls("non-200-success-class-with-valid-body")
+		case sc.Code < 300:
+			cls("non-200-success-class-with-" + sc.Body + "-body")
+		case sc.Code < 400:
+			cls("non-200-redirect-class-without-location")
+		default:
+			cls("non-200-error-class")
+		}
+	}
+
 	if ui := info.urls[vc13IdxPath]; !ui.ok && hits[vc13IdxPath] > 0 {
+		statusClasses("idx", rd.Idx, ui)
 		cls("fault:" + string(ui.kind))
 		cls("cell:idx:" + string(ui.kind))
 		if rd.Idx.Over > 0 {
@@ -1087,6 +1138,7 @@ func (w *vc13World) checkRound(
 		}
 
 		if faulted && hits[s.path] > 0 {
+			statusClasses(s.name, rd.S[s.name], ui)
 			cls("fault:" + kindLabel)
 			cls("fault-slot:" + s.kind)
 			cls("cell:" + s.name + ":" + kindLabel)
@@ -1296,7 +1348,18 @@ func vc13FileSlot(file string) (name string) {
 func (w *vc13World) checkRestart(seq *vc13Seq, last *vc13Obs, cacheOn bool, lowered map[string]string) (classes []string) {
 	t := w.t
 
-	w.srv.setPlan(map[string]*vc13Resp{}, &vc13Resp{kind: vc13S500, body: []byte("down\n")}, nil)
+	// While the fresh process loads, the server refuses everything, with an
+	// error status or with a non-200 status of the success or the redirect
+	// class and a body; nothing of that may be taken for a list.
+	refusal := &vc13Resp{kind: vc13S500, body: []byte("down\n")}
+	switch len(seq.Rounds) % 3 {
+	case 1:
+		refusal = &vc13Resp{kind: vc13Status, code: 203, body: []byte("||refused-203.test^\nrefused-203.test\n")}
+	case 2:
+		refusal = &vc13Resp{kind: vc13Status, code: 300, body: []byte("||refused-300.test^\nrefused-300.test\n")}
+	}
+
+	w.srv.setPlan(map[string]*vc13Resp{}, refusal, nil)
 	defer w.srv.endRound()
 
 	// What a restarted process finds for each target.
@@ -1675,6 +1738,19 @@ func vc13GenOK(t *rapid.T, label string) (sc vc13Script) {
 // hanging responses of the sequence.
 func vc13GenFault(t *rapid.T, label string, hangs *int) (sc vc13Script) {
 	k := rapid.SampledFrom(vc13FaultKinds).Draw(t, label+"-kind")
+	if rapid.IntRange(0, 3).Draw(t, label+"-status") == 0 {
+		k = vc13Status
+	}
+
+	if k == vc13Status {
+		return vc13Script{
+			Kind: k,
+			Fill: rapid.IntRange(0, 12).Draw(t, label+"-fill"),
+			Code: rapid.SampledFrom(vc13StatusCodes).Draw(t, label+"-code"),
+			Body: rapid.SampledFrom(vc13StatusBodies).Draw(t, label+"-body"),
+		}
+	}
+
 	if vc13IsHang(k) {
 		if *hangs == 0 {
 			k = vc13ShortCL
@@ -1922,6 +1998,7 @@ var vc13RequiredClasses = []string{
 	"valid-entry-after-url-rejected-duplicate", "valid-entry-before-url-rejected-duplicate",
 	"idx-from-file:valid", "idx-from-file:fault", "idx-from-file:partial",
 	"file-source-larger-than-limit", "restart-lowered:checked", "from-file:svc", "from-file:adult",
+	"non-200-success-class-with-valid-body", "non-200-redirect-class-without-location", "non-200-error-class",
 	"parallel", "cancel:seen-by-the-code", "index-empty", "svc-emptyrules-applied", "probe:verdict-while-body-in-flight",
 	"size-limit:applied",
 	"fault:oversize", "fault:oversize_chunked", "fault:oversize_close", "fault:short_cl", "fault:chunk_trunc",
@@ -2016,6 +2093,39 @@ func vc13GridSeqs() (seqs []*vc13Seq) {
 				seqs = append(seqs, three(mid))
 			}
 		}
+	}
+
+	// Every non-200 status with every form of body at every target.  Targets
+	// whose failure does not stop the refresh of the others share a round.
+	for _, code := range vc13StatusCodes {
+		for _, body := range vc13StatusBodies {
+			sc := vc13Script{Kind: vc13Status, Fill: 3, Code: code, Body: body}
+
+			// The index; if its "valid" body were accepted, two lists would go.
+			mid := okRound()
+			mid.Idx = sc
+			mid.Entries = []vc13Entry{{T: "valid", L: "b"}}
+			seqs = append(seqs, three(mid))
+
+			mid = okRound()
+			for _, tg := range []string{"a", "b", "c", "ssy", "adult", "danger", "newreg"} {
+				mid.S[tg] = sc
+			}
+			seqs = append(seqs, three(mid))
+
+			for _, tg := range []string{"svc", "ssg"} {
+				mid = okRound()
+				mid.S[tg] = sc
+				seqs = append(seqs, three(mid))
+			}
+		}
+
+		// An index that is accepted with a non-200 status and lists nothing
+		// would drop every rule list.
+		mid := okRound()
+		mid.Idx = vc13Script{Kind: vc13Status, Code: code, Body: "valid"}
+		mid.Entries = []vc13Entry{}
+		seqs = append(seqs, three(mid))
 	}
 
 	for _, cut := range []int{0, 100} {
@@ -2313,6 +2423,15 @@ func TestVerifC13FaultGrid(t *testing.T) {
 		"valid-entry-after-validate-rejected-duplicate", "valid-entry-before-validate-rejected-duplicate",
 	)
 
+	for _, code := range vc13StatusCodes {
+		for _, body := range vc13StatusBodies {
+			for _, tg := range vc13Targets {
+				req = append(req, fmt.Sprintf("status:%s:%d:%s", tg, code, body))
+			}
+		}
+	}
+
+	req = append(req, "non-200-success-class-with-valid-body", "non-200-redirect-class-without-location")
 	req = append(req, "file-source-larger-than-limit", "restart-lowered:checked")
 	for _, tg := range vc13FileTargets {
 		req = append(req, "file-source:"+tg+":limit+1", "file-source:"+tg+":3limit")
